@@ -4,6 +4,10 @@
 # Prints one line per (id, seed); exit 1 if any run did not exit 0.
 TIER="$1"; A="$2"; B="$3"; shift 3
 IDS="${*:-C01 C06 C13 C14 C19}"
+# the binaries in /verif/target may stem from a build against a temporarily patched /repo
+# (tools/seed_eval.py, tools/sensitivity.sh): rebuild against the current tree first
+if [ -n "$(git -C /repo status --porcelain --untracked-files=no)" ]; then echo "/repo working tree is not clean; refusing to sweep" >&2; exit 2; fi
+/verif/check build >/dev/null || exit 2
 D=$(mktemp -d /tmp/cosim-sweep.XXXXXX)
 cp /verif/target/release/cosim "$D/cosim" && cp /verif/target/std/release/cosim "$D/cosim-std" || exit 2
 export COSIM_STD_EXE="$D/cosim-std"
